@@ -2,6 +2,7 @@ package c03
 
 import (
 	"bytes"
+	"context"
 	"encoding/json"
 	"fmt"
 	"os"
@@ -11,6 +12,7 @@ import (
 	"strings"
 	"sync"
 	"testing"
+	"time"
 
 	"pgregory.net/rapid"
 	"verif/harness/internal/cfggen"
@@ -32,6 +34,9 @@ var (
 	cacheDir  string
 )
 
+// lintTimeout, when positive, bounds one run of the linter.
+var lintTimeout time.Duration
+
 func scCache() string {
 	cacheOnce.Do(func() {
 		cacheDir, _ = os.MkdirTemp("", "c03-sccache-")
@@ -52,6 +57,17 @@ type problem struct {
 func lint(dir string, patterns ...string) (msg string, ndiag int, infra string) {
 	args := append([]string{"-debug.run-quickfix-analyzers", "-checks", "all", "-f", "json"}, patterns...)
 	cmd := exec.Command(filepath.Join(ev.BinDir(), "staticcheck"), args...)
+	if lintTimeout > 0 {
+		// hook for tests that also judge termination (exotic_test.go)
+		ctx, cancel := context.WithTimeout(context.Background(), lintTimeout)
+		defer cancel()
+		cmd = exec.CommandContext(ctx, filepath.Join(ev.BinDir(), "staticcheck"), args...)
+		defer func() {
+			if ctx.Err() == context.DeadlineExceeded && infra == "" {
+				msg = fmt.Sprintf("staticcheck did not terminate within %v (killed)\n", lintTimeout) + msg
+			}
+		}()
+	}
 	cmd.Dir = dir
 	cmd.Env = append(os.Environ(), "STATICCHECK_CACHE="+scCache())
 	var stdout, stderr bytes.Buffer
@@ -366,12 +382,13 @@ func replayFile(t *testing.T, f, test string) {
 }
 
 func TestCorpus(t *testing.T) {
-	if os.Getenv("VERIF_SECONDARY") != "" {
-		return
-	}
 	fs, _ := filepath.Glob(filepath.Join(os.Getenv("VERIF_ROOT"), "corpus", "C03", "*.json"))
 	sort.Strings(fs)
-	for _, f := range fs {
+	for i, f := range fs {
+		// the saved cases are spread over the shards (every case is replayed exactly once per run)
+		if i%ev.NShards() != ev.Shard() {
+			continue
+		}
 		replayFile(t, f, "TestCorpus")
 	}
 }
